@@ -168,7 +168,7 @@ func (e *Executor) RunTask(ctx context.Context, call *Call) error {
 			return err
 		}
 
-		verifhook.Ev(ctx, "depsDone")
+		verifhook.Ev(ctx, "depsDone", "ok")
 		if err := ctx.Err(); err != nil {
 			verifhook.Ev(ctx, "ctxErr")
 			return err
